@@ -80,6 +80,7 @@ type sim struct {
 	expect       map[int]gpos // what such a group must come back as
 	dormantDirty bool         // SetAppendedSeq ran while groups were dormant (it moves them too)
 	appearOK     int          // the group the current race2 operation creates (-1 = none)
+	wok          *wokenCall   // the Consume call held before the lock of consume() (at most one)
 }
 
 // parkedCall is a Consume call running on its own goroutine, blocked in Queue.NotEmpty.
@@ -197,6 +198,17 @@ func (s *sim) oracle(kind string, g int, n int64, res string, b, a snapshot, met
 	if kind == "ackcrash" {
 		kind = "ack" // the Ack itself is judged as any other; the image is judged in doAckCrash
 	}
+	if kind == "syncreset" {
+		kind = "setapp" // Sync ‖ index reset: the reset is ordered after the Sync that was in flight
+	}
+	if kind == "wbegin" {
+		if res != "woken" {
+			kind = "consume" // the call returned without being held: judged as any Consume
+		} else if a.String() != b.String() {
+			s.fail("held-consume-changed-positions", "a Consume call held before the lock of consume(): %s -> %s", b, a)
+		}
+	}
+	syncInside := kind == "acksync" || kind == "syncack" // an Ack and Sync(s) in one operation
 	// (4)
 	if a.ack > a.app {
 		s.fail("queue-ack-above-appended", "after %s: queue ack %d > appended %d", kind, a.ack, a.app)
@@ -205,7 +217,7 @@ func (s *sim) oracle(kind string, g int, n int64, res string, b, a snapshot, met
 		if a.ack < b.ack {
 			s.fail("queue-ack-moved-back-by-"+kind, "queue ack %d -> %d", b.ack, a.ack)
 		}
-		if a.ack != b.ack && kind != "sync" && kind != "createsync" && kind != "expire" && kind != "race2" {
+		if a.ack != b.ack && kind != "sync" && kind != "createsync" && kind != "expire" && kind != "race2" && !syncInside {
 			s.fail("queue-ack-moved-by-"+kind, "queue ack %d -> %d", b.ack, a.ack)
 		}
 		if kind == "createsync" && a.ack != b.ack {
@@ -213,6 +225,15 @@ func (s *sim) oracle(kind string, g int, n int64, res string, b, a snapshot, met
 			for id, p := range a.g {
 				if a.ack > p.a {
 					s.fail("sync-queue-ack-above-group-ack", "Sync concurrent with the creation of group %d moved the queue ack to %d, group %d has ack %d", g, a.ack, id, p.a)
+				}
+			}
+		}
+		if syncInside && a.ack != b.ack {
+			// the Sync ran when the addressed group had already published its new position; every
+			// other group stood still
+			for id, p := range a.g {
+				if a.ack > p.a {
+					s.fail("sync-queue-ack-above-group-ack", "%s on group %d moved the queue ack to %d, group %d has ack %d", kind, g, a.ack, id, p.a)
 				}
 			}
 		}
@@ -291,7 +312,7 @@ func (s *sim) oracle(kind string, g int, n int64, res string, b, a snapshot, met
 				s.fail("consume-missed-message", "consumed %d appended %d but Consume returned -1", bp.c, b.app)
 			}
 		}
-	case "cend", "appendwake", "pausewake":
+	case "cend", "appendwake", "pausewake", "wend":
 		// (2) for a Consume call that was parked while other goroutines moved the positions: what it
 		// hands out is consumed+1 AT THE TIME IT RETURNS (b is the snapshot taken after the last
 		// operation of the other goroutine, before the wake-up), and that becomes the consumed position
@@ -318,7 +339,7 @@ func (s *sim) oracle(kind string, g int, n int64, res string, b, a snapshot, met
 			if ap != bp {
 				s.fail("parked-empty-consume-changed-positions", "%s: %v -> %v", kind, bp, ap)
 			}
-			if kind != "pausewake" && !s.paused[g] && bp.c+1 <= a.app {
+			if kind != "pausewake" && (!s.paused[g] || kind == "wend") && bp.c+1 <= a.app {
 				s.fail("parked-consume-missed-message", "%s: consumed %d appended %d but the woken Consume returned -1", kind, bp.c, a.app)
 			}
 		}
@@ -369,6 +390,22 @@ func (s *sim) oracle(kind string, g int, n int64, res string, b, a snapshot, met
 			}
 		} else if ap != bp || a.ack != b.ack || a.app != b.app {
 			s.fail("ack-outside-window-not-ignored", "ack %d on %v gave %v", n, bp, ap)
+		}
+	case "ackfault", "acksync", "syncack":
+		// (3) with an msync in flight or failing: outside the window nothing changes; inside, the
+		// consumed position stays and the acknowledged one is n (a failing msync is only logged by the
+		// pinned source; whether the position counts as acknowledged then is not part of the property,
+		// so bp.a is accepted as well — what must hold is that memory and meta page agree, judged at
+		// the next reopen, and that a published position is not taken back, judged inside the op)
+		if !live {
+			break
+		}
+		if n >= bp.a && n <= bp.c {
+			if ap.c != bp.c || (ap.a != n && !(kind == "ackfault" && ap.a == bp.a)) {
+				s.fail("ack-inside-window-not-applied", "%s %d on %v gave %v", kind, n, bp, ap)
+			}
+		} else if ap != bp {
+			s.fail("ack-outside-window-not-ignored", "%s %d on %v gave %v", kind, n, bp, ap)
 		}
 	case "setc":
 		if live && (ap.c != n || ap.a != bp.a) {
@@ -1111,7 +1148,7 @@ func (s *sim) doAckConsume(g int, n int64) {
 		defer func() { _ = recover() }()
 		h.Ack(n)
 	}()
-	if !gt.waitHit(3 * time.Second) {
+	if !gt.waitHitOr(adone, 3*time.Second) {
 		gt.open()
 		<-adone
 		s.dead = true
@@ -1421,7 +1458,11 @@ func (s *sim) caseLazyFixed(rng *rand.Rand) {
 // scratch returns a fresh scratch directory; cases that write whole data pages prefer a
 // memory-backed file system when there is one.
 func scratch(big bool) (string, error) {
-	if big {
+	// every case lives on the memory-backed file system when there is one with room: the queue
+	// msyncs a page on every Ack / Sync, which on a disk costs 80 % of the area's run time (and far
+	// more on a loaded machine). What reaches the disk is C05's subject, not C06's.
+	_ = big
+	{
 		var fs syscall.Statfs_t
 		if st, err := os.Stat("/dev/shm"); err == nil && st.IsDir() && syscall.Statfs("/dev/shm", &fs) == nil && uint64(fs.Bavail)*uint64(fs.Bsize) >= 2<<30 {
 			if d, err := os.MkdirTemp("/dev/shm", "lvh-c06-*"); err == nil {
@@ -1432,11 +1473,23 @@ func scratch(big bool) (string, error) {
 	return os.MkdirTemp("", "lvh-c06-*")
 }
 
+// sweepStaleScratch removes scratch directories a killed run left on the memory-backed file system
+// (older than 30 minutes: a concurrent run's directories live for seconds).
+func sweepStaleScratch() {
+	ds, _ := filepath.Glob("/dev/shm/lvh-c06-*")
+	for _, d := range ds {
+		if st, err := os.Stat(d); err == nil && time.Since(st.ModTime()) > 30*time.Minute {
+			os.RemoveAll(d)
+		}
+	}
+}
+
 func (a area) Run(c *core.Ctx) error {
 	// a store into a page that GC unmapped would otherwise kill the process: make it a panic of this
 	// goroutine (all queue calls are made synchronously from it), reported as an oracle failure
 	defer debug.SetPanicOnFault(debug.SetPanicOnFault(true))
 	defer installSeam()()
+	sweepStaleScratch()
 	for i := 0; i < c.N; i++ {
 		if !c.Want(i) {
 			continue
@@ -1486,6 +1539,14 @@ func (a area) Run(c *core.Ctx) error {
 				s.caseRound8Fixed(rng)
 			case "round8":
 				s.caseRound8Random(rng)
+			case "msync-fixed":
+				s.caseMsyncFixed(rng)
+			case "msync":
+				s.caseMsyncRandom(rng)
+			case "woken-fixed":
+				s.caseWokenFixed(rng)
+			case "woken":
+				s.caseWokenRandom(rng)
 			case "lazy-fixed":
 				s.caseLazyFixed(rng)
 			case "fault-fixed":
@@ -1499,6 +1560,7 @@ func (a area) Run(c *core.Ctx) error {
 		if s.nops >= 5 && !s.dead {
 			c.NonTrivial()
 		}
+		s.releaseWoken()
 		s.release()
 		s.close()
 		os.RemoveAll(dir)
@@ -1534,6 +1596,10 @@ func caseKind(i int, tier string, rng *rand.Rand) string {
 		return "fault-fixed"
 	case 11:
 		return "round8-fixed"
+	case 12:
+		return "msync-fixed"
+	case 13:
+		return "woken-fixed"
 	}
 	if tier == "thorough" && i%40 == 7 {
 		return "pages"
@@ -1545,7 +1611,11 @@ func caseKind(i int, tier string, rng *rand.Rand) string {
 		return "race"
 	case r < 28:
 		return "round8"
-	case r < 55:
+	case r < 36:
+		return "msync"
+	case r < 43:
+		return "woken"
+	case r < 61:
 		return "random"
 	case r < 70:
 		return "random-early-groups" // all groups created before the first append, none stopped
